@@ -32,7 +32,8 @@ MANIFEST = {
             "scripted full 256-node sub-trees (length byte 255). trie.Prove THROUGH THE STORE is modelled (SMT/LayeredProve.v: "
             "generateQueryProof reading sub-trees and recursing through stubs, then the same merge) and PROVED to return exactly "
             "the proof of the reference-trie prover for every key list after every history (C10_layered_prove_refines), and is "
-            "compared with the real Prove on every proof case. PROOF clauses: smt.Verify is modelled "
+            "compared with the real Prove on two thirds of the proof cases plus every height-4 case in the quick tier, on all of "
+            "them in thorough. PROOF clauses: smt.Verify is modelled "
             "faithfully (Verify+CalculateRoot byte level) and proved SOUND for any number of queries under an injective, domain-separated "
             "hash, end to end against the map (a non-empty value is in the map, an empty value or a different query key means the "
             "requested key is absent); completeness is proved only for the canonical proof of one key; MULTI-KEY COMPLETENESS (a proof "
@@ -44,7 +45,17 @@ MANIFEST = {
             "and verify in both, every tampered proof gets the same verdict in both and, if accepted, must state only true claims.",
     "note": "Trusted: Coq kernel + vm_compute, in-Coq SHA-256 (checked on FIPS vectors), Go harness and Python glue. The refinement "
             "theorems are about the layered Gallina model; its agreement with smt.go (bins, goroutine order, encoding) is "
-            "checked by store-dump correspondence, not proved.",
+            "checked by store-dump correspondence, not proved. Of the anchored callers only blockchain.CalculateEventRoot "
+            "(pkg/blockchain/event.go) is driven; pkg/framework/handler.go (Commit/Revert/Init calling NewTrie/Update) is NOT driven by "
+            "this check - its use of the trie (keys, 32-byte value hashes, root passed to NewTrie) enters as declared assumptions, and a "
+            "defect there (e.g. seed C10-w3-2 in ABIHandler.Init) is caught by C16, not by C10. Per-kind floors are obligations: a run "
+            "that evaluates fewer root / proof / store-dump / production-store / store-prover cases than the floor fails.",
+}
+# minimum number of evaluated cases per kind (root histories, proof cases, store-dump histories, production-store root / proof
+# comparisons, store-prover comparisons); quick tier seen: 74 / 34 / 30 / 64 / 34 / 32
+FLOORS = {
+    "quick": dict(root=60, proof=25, stores=20, prodroots=50, prodproofs=25, lprove=20),
+    "thorough": dict(root=1600, proof=700, stores=300, prodroots=1500, prodproofs=700, lprove=700),
 }
 IMPORTS = "From LE Require Import SMT.Spec SMT.Tree SMT.Verify SMT.Prove SMT.Layered Corr.C10."
 
@@ -140,6 +151,11 @@ def evaluate(ck, recs):
             ck.failures.append(f)
     roots = [r for r in roots if not (r.get("panic") or r.get("err"))]
     proofs = [r for r in proofs if not (r.get("panic") or r.get("err"))]
+    kinds = ck.extra.setdefault("kind_counts", dict(root=0, proof=0, stores=0, prodroots=0, prodproofs=0, lprove=0))
+    kinds["root"] += len(roots)
+    kinds["proof"] += len(proofs)
+    kinds["prodroots"] += sum(1 for r in roots if r.get("prodroots") is not None)
+    kinds["prodproofs"] += sum(1 for r in proofs if r.get("prodsibs") is not None)
     roots = balance(roots, lambda r: r["kl"] * (1 + sum(len(b) for b in r["batches"])), 6)
     proofs = balance(proofs, lambda r: r["kl"] * ((1 + len(r["obs"])) * (1 + len(r["keys"])) + 4 * sum(len(b) for b in r["batches"])), 3)
     # node-store dumps (small histories): the layered model must produce the same store after every Update
@@ -153,6 +169,7 @@ def evaluate(ck, recs):
     lproofs = balance(lproofs, lambda r: r["kl"] * (1 + len(r["keys"]) + 2 * sum(len(b) for b in r["batches"])), 6)
     rl = ck.coq_eval(IMPORTS, "lprove_case", "check_lprove", [lprove_term(r) for r in lproofs], shard=6, tag="lprove", timeout=1700)
     if rl is not None:
+        kinds["lprove"] += len(lproofs)
         for r, code in zip(lproofs, rl):
             ck.count()
             ck.extra["store_provers_compared"] = ck.extra.get("store_provers_compared", 0) + 1
@@ -165,6 +182,7 @@ def evaluate(ck, recs):
                 f["spec_violated"] = False
                 ck.failures.append(f)
     if rs_ is not None:
+        kinds["stores"] += len(stores)
         for r, code in zip(stores, rs_):
             ck.count(len(r["stores"]))
             ck.nontrivial(("store", r["kl"], r.get("sh", 0), json.dumps(r["batches"])))
@@ -214,9 +232,11 @@ def run_capture(ck, binp, args, out_name="cases.jsonl"):
     """run the harness; if it dies (a panic inside a goroutine spawned by the code under test cannot be recovered) report the
     case that was running (its input is in <out>.pending) as a concrete failing input"""
     n_before = len(ck.failures)
+    pend = os.path.join(ck.work, out_name + ".pending")
+    if os.path.exists(pend):  # left over by an earlier crashed run: must not be blamed on this one
+        os.remove(pend)
     recs = ck.run_harness(binp, args, out_name=out_name)
     if recs is None:
-        pend = os.path.join(ck.work, out_name + ".pending")
         if os.path.exists(pend):
             case = json.load(open(pend))
             why = ck.failures[-1]["what"][:500] if len(ck.failures) > n_before else "harness died"
@@ -254,6 +274,24 @@ def run(ck):
         return
     recs = recs + main
     evaluate(ck, recs)
+    # per-kind FLOORS: every tie must really have been evaluated (a flag or generator that emits nothing of a kind, e.g. a broken
+    # dump path, would otherwise drop that tie with exit 0); the flags above meet them by construction at every seed
+    floors = FLOORS["quick" if ck.tier == "quick" else "thorough"]
+    seen = ck.extra.get("kind_counts", {})
+    for kind, need in floors.items():
+        ck.obligations += 1
+        if seen.get(kind, 0) >= need:
+            ck.discharged += 1
+        else:
+            ck.fail_obligation("floor:" + kind, "only %d cases of kind %s were evaluated (floor %d): the %s tie did not run as intended" % (
+                seen.get(kind, 0), kind, need, kind))
+    full = [r for r in recs if r["k"] == "root" and r.get("gen") == "full-dump" and r.get("stores") and len(r["stores"]) == 2
+            and not (r.get("err") or r.get("panic"))]
+    ck.obligations += 1
+    if len(full) >= 2:
+        ck.discharged += 1
+    else:
+        ck.fail_obligation("floor:full-dump", "the two scripted full 256-node sub-tree histories with store dumps were not both produced (%d)" % len(full))
     for k in ("root", "proof"):
         xs = [x for x in recs if x["k"] == k and x["batches"] and len(json.dumps(x)) < 6000]
         if xs:
